@@ -253,6 +253,7 @@ def _minimise_one(check_name: str, seed_: int, run: int, violation: dict, option
 
     check = importlib.import_module(f"simverif.{check_name}")
     zy = ZygoteSet(check.PROFILE, seed_)
+    core.SHRINK_DEADLINE[0] = time.time() + float(options.get("shrink_wall_s", 150))
     try:
         conn.send({"replay": check.minimise(zy, seed_, run, violation, options)})
     except BaseException as exc:  # noqa: BLE001
@@ -272,7 +273,7 @@ def _minimise_all(check, new: list, seed_: int, options: dict, harness_errors: l
     check_name = check.__name__.rsplit(".", 1)[-1]
     for i, (sig, (rec, v)) in enumerate(sorted(first.items())):
         opts = dict(options)
-        if i >= int(options.get("max_shrunk_sigs", 8)):
+        if i >= int(options.get("max_shrunk_sigs", 6)):
             opts["no_shrink"] = True
         parent, child = ctx.Pipe(duplex=False)
         p = ctx.Process(target=_minimise_one, args=(check_name, seed_, rec["run"], v, opts, child))
